@@ -79,6 +79,9 @@ const REJECTED_MUTATIONS: [&str; 10] = [
 fn failing_expr(kind: usize, rng: &mut Rng) -> Cell {
     match kind % 7 {
         6 => parse_forms(*rng.pick(&REJECTED_MUTATIONS)).remove(0),
+        // an unbound name referenced directly, or by a procedure compiled earlier (fwd7 calls later7, which
+        // is only defined after the failures)
+        0 if rng.bool() => gen::call("fwd7", vec![gen::int(3)]),
         0 => gen::sym(&format!("nope{}", rng.below(1000))),
         1 => gen::call("car", vec![gen::int(5)]),
         2 => gen::list(vec![gen::list(vec![gen::sym("lambda"), gen::list(vec![gen::sym("z")]), gen::sym("z")])]),
@@ -118,6 +121,7 @@ pub fn build_case(rng: &mut Rng, index: u64) -> Case {
         "(define (deep7 n th) (if (= n 0) (th) (+ 1 (deep7 (- n 1) th))))
          (define kk7 #f)
          (define (probe-fail7 n) (if (= n 0) (car 'probe) (+ 1 (probe-fail7 (- n 1)))))
+         (define (fwd7 x) (later7 (+ x 1)))
          (define vec7 (vector 1 2 3 4)) (define str7 (make-string 4 #\\a)) (define lst7 (list 1 2 3))",
     );
     for d in defs.iter().chain(helper.iter()) {
@@ -238,7 +242,7 @@ pub fn build_case(rng: &mut Rng, index: u64) -> Case {
     probes.push(gen::call("probe-fail7", vec![gen::int(3)]));
     probes.extend(probe_exprs);
     probes.push(gen::call("probe-fail7", vec![gen::int(0)]));
-    probes.extend(parse_forms("(list vec7 str7 lst7) (mac7 1 2)"));
+    probes.extend(parse_forms("(list vec7 str7 lst7) (mac7 1 2) (define (later7 y) (* y 10)) (fwd7 1) (fwd7 2)"));
     probes.extend(parse_forms("(if (< kdn7 1) (begin (set! kdn7 (+ kdn7 1)) (kd7 500)) 'spent) (list rd7 kdn7) (+ 1 (if (< kdn7 2) (begin (set! kdn7 (+ kdn7 1)) (kd7 7)) 0)) (list rd7 kdn7)"));
     for p in probes {
         steps.push(Step { main: vec![Item::Form(p.clone())], twin: vec![Item::Form(p)], compare: true, label: "probe" });
